@@ -343,31 +343,74 @@ func exec(h H, rec *pbt.Rec) error {
 // Atomic visibility of a batch across tables, RocksDB only.
 func TestRocksAtomicBatch(t *testing.T) {
 	defer pbt.CleanWork()
-	rec := pbt.NewRec("C14", "TestRocksAtomicBatch", "a writer thread batches [HistoryTable B:=i, HyperTable A:=i] for i=1..N while a reader reads B then A; atomic batches imply A>=B at every read. evaluations = concurrent runs (x2: any interleaving seen / at least 1% as many reads as writes); the number of interleaved reads is in the counters.")
+	rec := pbt.NewRec("C14", "TestRocksAtomicBatch", "for batch sizes m in {2, 200, 1023, 1024, 1025, 3001} (first mutation in the history table, last in the FSM-state table, the rest in the hyper table, all := i): (1) a writer thread applies batches i=1..N while a reader reads the first-written key, then the last-written key; atomic batches imply last >= first at every read; (2) the process is SIGKILLed while it keeps writing such batches (after 60..400 ms), the store is reopened in a new process and every key of the batch must hold the same i (a batch is there entirely or not at all). evaluations = (size, run) pairs; the number of interleaved reads is in the counters.")
 	defer rec.Flush()
-	x, err := rig.StartExec("nodeexec")
-	if err != nil {
-		t.Fatal(err)
-	}
-	defer x.Kill()
-	if r, err := x.Call(&xp.Req{Op: "store-open", Name: "s", Path: rig.WorkDir("c14a")}, 30*time.Second); err != nil || r.Err != "" {
-		t.Fatalf("open: %v %v", err, r)
-	}
-	n := pbt.Scale(20000, 300000)
-	r, err := x.Call(&xp.Req{Op: "store-atomic", Name: "s", N: uint64(n)}, 600*time.Second)
-	if err != nil {
-		t.Fatal(err)
-	}
-	// one concurrent run per shard; the number of reads that interleaved with the writes varies
-	// with machine load and is reported as a counter, not as the evaluation count
-	rec.CaseHash(uint64(pbt.Shard())+1, r.Emitted > 0)
-	rec.CaseHash(uint64(pbt.Shard())+1001, r.Emitted > n/100)
-	rec.Count("reads", int64(r.Emitted))
-	rec.Count("writes", int64(n))
-	rec.Sample(1, map[string]int{"writes": n, "reads": r.Emitted, "violations": r.Bad})
-	if r.Bad > 0 {
-		p := pbt.SaveReplay("C14", "TestRocksAtomicBatch", map[string]int{"writes": n}, fmt.Errorf("%d reads saw A<B", r.Bad))
-		pbt.Violation("C14", p, fmt.Sprintf("%d of %d reads saw a half-applied batch (A<B)", r.Bad, r.Emitted))
-		t.Fatalf("%d reads saw a half-applied batch", r.Bad)
+	sizes := []int{2, 200, 1023, 1024, 1025, 3001}
+	for si, m := range sizes {
+		x, err := rig.StartExec("nodeexec")
+		if err != nil {
+			t.Fatal(err)
+		}
+		dir := rig.WorkDir(fmt.Sprintf("c14a-%d", m))
+		if r, err := x.Call(&xp.Req{Op: "store-open", Name: "s", Path: dir}, 30*time.Second); err != nil || r.Err != "" {
+			x.Kill()
+			t.Fatalf("open: %v %v", err, r)
+		}
+		n := pbt.Scale(40000, 600000) / m
+		if n < 150 {
+			n = 150
+		}
+		r, err := x.Call(&xp.Req{Op: "store-atomic", Name: "s", N: uint64(n), A: uint64(m)}, 600*time.Second)
+		if err != nil {
+			x.Kill()
+			t.Fatal(err)
+		}
+		// the number of reads that interleaved with the writes varies with machine load and is
+		// reported as a counter, not as the evaluation count
+		rec.CaseHash(uint64(pbt.Shard())*100+uint64(si)+1, r.Emitted > 0)
+		rec.Class(fmt.Sprintf("visibility:m=%d", m), 1)
+		rec.Count("reads", int64(r.Emitted))
+		rec.Count("writes", int64(n))
+		rec.Sample(m, map[string]int{"batch_size": m, "writes": n, "reads": r.Emitted, "violations": r.Bad})
+		if r.Bad > 0 {
+			x.Kill()
+			p := pbt.SaveReplay("C14", "TestRocksAtomicBatch", map[string]int{"writes": n, "batch_size": m}, fmt.Errorf("%d reads saw a half-applied batch", r.Bad))
+			pbt.Violation("C14", p, fmt.Sprintf("batches of %d mutations: %d of %d reads saw a half-applied batch (the key written last was older than the key written first)", m, r.Bad, r.Emitted))
+			t.Fatalf("%d reads saw a half-applied batch", r.Bad)
+		}
+		// (2) kill while writing, reopen
+		kills := pbt.Scale(2, 12)
+		for k := 0; k < kills; k++ {
+			if _, err := x.Call(&xp.Req{Op: "store-atomic-bg", Name: "s", A: uint64(m)}, 30*time.Second); err != nil {
+				t.Fatal(err)
+			}
+			time.Sleep(time.Duration(60+((k*97+si*41+pbt.Shard()*13)%340)) * time.Millisecond)
+			x.Kill()
+			x, err = rig.StartExec("nodeexec")
+			if err != nil {
+				t.Fatal(err)
+			}
+			if r, err := x.Call(&xp.Req{Op: "store-open", Name: "s", Path: dir}, 60*time.Second); err != nil || r.Err != "" {
+				x.Kill()
+				p := pbt.SaveReplay("C14", "TestRocksAtomicBatch", map[string]int{"batch_size": m, "kill": k}, fmt.Errorf("reopen after kill: %v %v", err, r))
+				pbt.Violation("C14", p, fmt.Sprintf("the store does not reopen after a SIGKILL while writing batches of %d mutations: %v %v", m, err, r))
+				t.Fatalf("reopen failed")
+			}
+			rr, err := x.Call(&xp.Req{Op: "store-atomic-read", Name: "s", A: uint64(m)}, 60*time.Second)
+			if err != nil {
+				x.Kill()
+				t.Fatal(err)
+			}
+			rec.CaseHash(uint64(pbt.Shard())*100000+uint64(si)*100+uint64(k)+7, rr.URL != "" && rr.URL != fmt.Sprintf("%016d", 0))
+			rec.Class(fmt.Sprintf("kill-reopen:m=%d", m), 1)
+			if rr.Err != "" || rr.Bad > 0 {
+				x.Kill()
+				p := pbt.SaveReplay("C14", "TestRocksAtomicBatch", map[string]int{"batch_size": m, "kill": k}, fmt.Errorf("%d keys differ: %s", rr.Bad, rr.Err))
+				pbt.Violation("C14", p, fmt.Sprintf("after a SIGKILL while writing batches of %d mutations and a reopen, the first key of the batch holds %s but %d of the batch's other keys hold something else %s: the batch is there in part", m, rr.URL, rr.Bad, rr.Err))
+				t.Fatalf("partial batch after kill")
+			}
+		}
+		x.Kill()
+		pbt.CleanWork()
 	}
 }
